@@ -29,6 +29,7 @@ type Contract struct {
 	Lets     []Let
 	Requires []Clause
 	Ensures  []Clause
+	Lemmas   []Clause // intermediate facts over the parameters: each is proved (obligation #lemma.<name>) and then assumed by every later obligation
 	Invs     map[int][]Clause
 	Modifies []string
 	Trusted  string
@@ -62,8 +63,8 @@ type ContractSet struct {
 // extraImports: package path -> import name -> package path, from `//@ import` directives
 var extraImports = map[string]map[string]string{}
 
-var clauseKW = map[string]bool{"let": true, "requires": true, "ensures": true, "invariant": true, "modifies": true,
-	"trusted": true, "pure": true, "inline": true, "opaque": true, "nopanic": true, "decreases": true, "axiom": true, "ownership": true, "decfull": true, "abstract": true}
+var clauseKW = map[string]bool{"lemma": true, "let": true, "requires": true, "ensures": true, "invariant": true, "modifies": true,
+	"trusted": true, "pure": true, "inline": true, "opaque": true, "nopanic": true, "decreases": true, "axiom": true, "ownership": true, "decfull": true, "splittail": true, "splitext": true, "abstract": true}
 
 var labelRe = regexp.MustCompile(`^([A-Za-z_][A-Za-z0-9_]*):\s+(.*)$`)
 
@@ -224,7 +225,7 @@ func (cs *ContractSet) parseFile(w *World, pkgPath, file string, f *ast.File) {
 					continue
 				}
 				cur.Lets = append(cur.Lets, Let{strings.TrimSpace(c.rest[:i]), e})
-			case "requires", "ensures":
+			case "requires", "ensures", "lemma":
 				src := c.rest
 				label := ""
 				if m := labelRe.FindStringSubmatch(src); m != nil && !strings.HasPrefix(m[2], ":") {
@@ -238,6 +239,8 @@ func (cs *ContractSet) parseFile(w *World, pkgPath, file string, f *ast.File) {
 				cc := Clause{Label: label, Src: src, E: e}
 				if c.kw == "requires" {
 					cur.Requires = append(cur.Requires, cc)
+				} else if c.kw == "lemma" {
+					cur.Lemmas = append(cur.Lemmas, cc)
 				} else {
 					cur.Ensures = append(cur.Ensures, cc)
 				}
